@@ -152,6 +152,7 @@ func ssaHash(fn *ssa.Function) string {
 }
 
 func main() {
+	initBattery()
 	if len(os.Args) < 2 {
 		fmt.Fprintln(os.Stderr, "usage: gosmt check <ID> [--tier quick|thorough] | gosmt run <Harness> | gosmt replay <dir>")
 		os.Exit(2)
